@@ -247,6 +247,35 @@ class Program:
         self.classes: dict[str, ClassInfo] = {}
         self._enclosing: dict[int, FuncInfo] = {}
         self._load()
+        self._alias_inherited_methods()
+
+    def _alias_inherited_methods(self) -> None:
+        """a method pulled up into a (new) base class or mixin is still `Sub.method` to the rules: every class gets an
+        alias key `module:Sub.method` for each method it inherits from a repository base, and a pulled-up method whose
+        own qualified name is new takes the (known) name it had in the subclass"""
+        import os as _os
+
+        try:
+            with open(_os.path.join(_os.path.dirname(_os.path.abspath(__file__)), "known_funcs.txt")) as fh:
+                known = {ln.strip() for ln in fh if ln.strip()}
+        except OSError:
+            known = set()
+        self.pulled_up: dict[str, str] = {}
+        for ci in list(self.classes.values()):
+            for base in self.mro(ci)[1:]:
+                for m, fn in base.methods.items():
+                    if self.find_method(ci, m) is not fn:
+                        continue
+                    alias = f"{ci.module.name}:{ci.name}.{m}"
+                    if alias in self.funcs and self.funcs[alias] is not fn:
+                        continue
+                    self.funcs.setdefault(alias, fn)
+                    if fn.qual not in known and alias in known:
+                        self.pulled_up[fn.qual] = alias
+        for old, alias in sorted(self.pulled_up.items()):
+            fn = self.funcs[old]
+            if fn.qual == old:
+                fn.qual = alias
 
     # ------------------------------------------------------------------ loading
     def _load(self) -> None:
@@ -272,9 +301,10 @@ class Program:
                     tree = ast.parse(src, filename=path)
                 except SyntaxError as exc:  # the build would fail too
                     raise AnalysisError(f"cannot parse {path}: {exc}") from exc
-                from .normalise import normalise_module
+                from .normalise import desugar_partials, normalise_module
 
                 ren = normalise_module(name, tree)
+                desugar_partials(tree)
                 if ren:
                     self.__dict__.setdefault("alpha_renamed", {}).update(ren)
                 self.modules[name] = Module(
@@ -924,12 +954,23 @@ class Program:
     def func(self, qual: str) -> FuncInfo:
         fi = self.funcs.get(qual)
         if fi is None:
+            # moved to another module of the package under the same name? (unique match only)
+            tail = qual.split(":", 1)[-1]
+            cands = [f for q, f in self.funcs.items() if q.split(":", 1)[-1] == tail and not f.module.name.startswith(("redress.testing", "redress.cli", "redress.contrib"))]
+            if len(cands) == 1:
+                self.__dict__.setdefault("moved_anchors", {})[qual] = cands[0].qual
+                return cands[0]
             raise AnalysisError(f"anchor vanished: function {qual}")
         return fi
 
     def cls(self, qual: str) -> ClassInfo:
         ci = self.classes.get(qual)
         if ci is None:
+            tail = qual.split(":", 1)[-1]
+            cands = [c for q, c in self.classes.items() if q.split(":", 1)[-1] == tail and not c.module.name.startswith(("redress.testing", "redress.cli", "redress.contrib"))]
+            if len(cands) == 1:
+                self.__dict__.setdefault("moved_anchors", {})[qual] = cands[0].qual
+                return cands[0]
             raise AnalysisError(f"anchor vanished: class {qual}")
         return ci
 
